@@ -10,5 +10,5 @@ def run(ctx):
     corpus = [(c["prog"], c["crash_at"]) for c in json.load(open(os.path.join(os.path.dirname(__file__), "..", "C06", "corpus.json")))]
     for r in RUNS:
         r["ticks"] = tuple(r["ticks"])
-    kprops.kernel_check(ctx, "C09", runs=RUNS, preds=['C09', 'C09d', 'C09o', 'C08', 'C06'], corpus=corpus,
+    kprops.kernel_check(ctx, "C09", runs=RUNS, preds=['C09', 'C09d', 'C09o', 'C09r', 'C08', 'C06'], corpus=corpus,
                         rule="random kernel programs whose frames at several levels carry plain auxiliaries (shared originals across framers, nested auxiliaries of auxiliaries), 'done' verbs and done-conditions; traces compared with the Coq model; implementation-only statement: an auxiliary's frames are entered only while one of its main frames is entered, enter/exit alternate. Corpus replays the open finding. Non-trivial = outline change and > 6 events")
